@@ -366,6 +366,73 @@ def rule_T1(ctx, qualname, protected, false_return=False, rid='T1'):
     return len(rejects)
 
 
+INFALLIBLE = {'isinstance', 'len', 'hasattr', 'callable', 'str', 'repr', 'id', 'type'}
+
+
+def _fallible(stmt_node, protected_writes):
+    """Can evaluating this CFG node raise on a malformed user value?  Plain protected
+    writes of names/constants, tests made of isinstance/hasattr/len/in/comparisons and
+    simple rebinding of names cannot."""
+    a = stmt_node.ast
+    exprs = []
+    if stmt_node.kind == 'test':
+        exprs = [stmt_node.expr]
+    elif stmt_node.kind == 'stmt':
+        if isinstance(a, (ast.Return, ast.Pass, ast.Break, ast.Continue)):
+            exprs = [a.value] if isinstance(a, ast.Return) and a.value is not None else []
+        elif isinstance(a, ast.Raise):
+            return False
+        else:
+            exprs = [a]
+    else:
+        return stmt_node.kind in ('for', 'with')
+    for e in exprs:
+        for sub in ast.walk(e):
+            if isinstance(sub, ast.Call):
+                d = dotted(sub.func) or ''
+                if d in INFALLIBLE:
+                    continue
+                if isinstance(sub.func, ast.Attribute) and sub.func.attr in (
+                        'append', 'format') and all(
+                        isinstance(x, (ast.Name, ast.Constant)) for x in sub.args):
+                    continue
+                return True
+            if isinstance(sub, ast.Subscript) and isinstance(sub.ctx, ast.Load):
+                return True
+            if isinstance(sub, ast.BinOp) and not isinstance(sub.op, (ast.Add,)):
+                return True
+            if isinstance(sub, ast.BinOp) and not (isinstance(sub.left, ast.Constant) or
+                                                   isinstance(sub.right, ast.Constant)):
+                return True
+    return False
+
+
+def rule_T1b(ctx, qualname, protected, rid='T1'):
+    """Commit block: once the first protected write has happened, nothing that can fail on a
+    malformed value is evaluated before the function returns (implicit exceptions are
+    rejections too)."""
+    func = ctx.program.func(qualname)
+    cfg = cfg_of(func)
+    writes = state_writes(func, protected, ctx.program)
+    wn = {w for w, _, _ in writes}
+    bad = []
+    for w in sorted(wn):
+        for nid in cfg.reach(w):
+            n = cfg.nodes[nid]
+            if nid in wn and not _fallible(n, wn):
+                continue
+            if n.kind in ('exit', 'raise', 'entry'):
+                continue
+            if _fallible(n, wn):
+                bad.append((cfg.nodes[w].lineno, n.lineno, unparse(n.ast if n.kind == 'stmt'
+                                                                  else n.expr)[:60]))
+    ctx.ob(rid, '%s:commit-block' % qualname, not bad, func.where(),
+           'after the first write to %s nothing fallible is evaluated: an implicit exception '
+           'cannot leave the object half-updated' % sorted(protected) if not bad else
+           'after the write at line %d, line %d evaluates `%s`, which can raise on a malformed '
+           'value and would leave the object modified by a rejected call' % bad[0])
+
+
 def _reject_key(node):
     a = node.ast
     if isinstance(a, ast.Raise) and a.exc is not None:
@@ -603,6 +670,19 @@ def rule_T3(ctx, rid='T3'):
                        'some path to the exit does not recompute them: stale '
                        'shell_n / shell_log_v / shell_log_l / shell_n_eff'))
     ctx.require(n >= 6, 'T3 found only %d dirty sites (floor 6)' % n)
+    # callers treat `self.discard_exploration = x` as "every shell recomputed" (e.g. right after
+    # explored becomes True): the setter must do so on every returning path, not only when
+    # the value changes
+    for name, f in sorted(S.methods.items()):
+        if f.kind != 'setter':
+            continue
+        cfg = cfg_of(f)
+        calls, alls = _recompute_nodes(f, cfg)
+        ok = bool(alls) and cfg.must_pass(cfg.entry.id, cfg.exit.id, alls)
+        ctx.ob(rid, '%s:always-recomputes' % f.qualname, ok, f.where(),
+               'the setter recomputes every shell on every returning path' if ok else
+               'a returning path of the setter skips the recomputation (e.g. when the value is '
+               'unchanged): statistics go stale when `explored` changed in between')
     # update_shell_info is a pure recomputation: reads of its outputs follow its own writes
     f = prog.func('Sampler.update_shell_info')
     cfg = cfg_of(f)
@@ -816,6 +896,12 @@ def rule_T5(ctx, rid='T5'):
            if not multi else 'an iteration can add %d batches (lines %s)' % (
                max(sum(1 for n in p if n in add_nodes) for p in multi),
                [cfg.nodes[n].lineno for n in multi[0] if n in add_nodes]))
+    inner = [a for a in add_nodes if cfg.can_reach(a, a, avoid={W.id})]
+    ctx.ob(rid, 'Sampler.run:no-batch-in-inner-loop', not inner, run.where(W.ast),
+           'no add_samples call sits in a loop nested inside the guarded loop' if not inner else
+           'add_samples (line %s) is inside a nested loop: one iteration of the guarded loop can '
+           'evaluate several batches without re-testing the budget'
+           % [cfg.nodes[a].lineno for a in inner])
     zero = [p for p in paths if not any(n in add_nodes for n in p)]
     bad_zero = []
     for p in zero:
